@@ -230,6 +230,27 @@ func NewPool(n int, genesisFilter chainhash.Hash) *Pool {
 		a, b := hs[i].BlockHash(), hs[j].BlockHash()
 		return bytes.Compare(a[:], b[:]) < 0
 	})
+	// Boundary hashes for the index's 2-byte sub-bucket prefix: the three
+	// smallest pool headers are replaced by headers whose hash starts with
+	// 00 00, the three largest by ff ff (ground by nonce; ranks, and with
+	// them all other tokens, stay as they were).
+	grind := func(h *wire.BlockHeader, b byte) {
+		for n := uint32(0); ; n++ {
+			h.Nonce = n
+			hh := h.BlockHash()
+			if hh[0] == b && hh[1] == b {
+				return
+			}
+		}
+	}
+	for i := 0; i < 3; i++ {
+		grind(hs[i], 0x00)
+		grind(hs[len(hs)-1-i], 0xff)
+	}
+	sort.Slice(hs, func(i, j int) bool {
+		a, b := hs[i].BlockHash(), hs[j].BlockHash()
+		return bytes.Compare(a[:], b[:]) < 0
+	})
 	for i, h := range hs {
 		p.Headers = append(p.Headers, h)
 		hh := h.BlockHash()
